@@ -600,6 +600,62 @@ def rule_plan(ctx) -> RuleResult:
     res.inst(f"_simple_combine re-indexes when reindex.blockwise is false-y: {oks}", "sc-reindex")
     if not oks:
         res.report("core._simple_combine|no-self-reindex", sc.where(), sc.qualname, "_simple_combine no longer re-indexes intermediates when they were not re-indexed at the block stage")
+    # ... and *every* block passes through the re-indexer: the blocks are concatenated position by position afterwards, so a block that
+    # is handed on as it is (because it "already has all the groups") keeps its own group order
+    def _is_reindexer(e, depth=0) -> bool:
+        if isinstance(e, ast.Call) and norm(e.func) in ("partial", "functools.partial") and e.args and norm(e.args[0]) == "reindex_intermediates":
+            return True
+        if isinstance(e, ast.Name) and depth < 3:
+            vals = [a.value for a in walk_own(sc.node) if isinstance(a, ast.Assign) and len(a.targets) == 1
+                    and isinstance(a.targets[0], ast.Name) and a.targets[0].id == e.id]
+            return bool(vals) and all(_is_reindexer(v, depth + 1) for v in vals)
+        return False
+
+    def _bypasses(fn_expr) -> list[str]:
+        """alternatives of a lambda / local def that return their argument without calling the re-indexer"""
+        body, params = None, []
+        if isinstance(fn_expr, ast.Lambda):
+            body, params = [fn_expr.body], [a.arg for a in fn_expr.args.args]
+        elif isinstance(fn_expr, ast.Name):
+            g = ctx.prog.funcs.get(f"{sc.qualname}.{fn_expr.id}")
+            if g is not None:
+                body = [r.value for r in walk_own(g.node) if isinstance(r, ast.Return) and r.value is not None]
+                params = g.params
+        if body is None:
+            return ["<unrecognised callable>"]
+        out = []
+
+        def leaves(e):
+            if isinstance(e, ast.IfExp):
+                leaves(e.body)
+                leaves(e.orelse)
+            elif not (isinstance(e, ast.Call) and (_is_reindexer(e.func) or norm(e.func) == "reindex_intermediates")
+                      and any(isinstance(a, ast.Name) and a.id in params for a in e.args)):
+                out.append(norm(e)[:40])
+        for b in body:
+            leaves(b)
+        return out
+
+    n_maps = 0
+    for c in calls_in(sc.node):
+        if norm(c.func) in ("deepmap", "dask.utils.deepmap") and len(c.args) == 2 and "reindex" in " ".join(norm(x) for x in [c.args[0]] +
+                [a.value for a in walk_own(sc.node) if isinstance(a, ast.Assign) and isinstance(c.args[0], ast.Name)
+                 and any(isinstance(t, ast.Name) and t.id == c.args[0].id for t in a.targets)] +
+                ([ctx.prog.funcs[f"{sc.qualname}.{c.args[0].id}"].node] if isinstance(c.args[0], ast.Name) and f"{sc.qualname}.{c.args[0].id}" in ctx.prog.funcs else [])):
+            n_maps += 1
+            fn = c.args[0]
+            if _is_reindexer(fn):
+                res.inst("_simple_combine: every block is mapped through partial(reindex_intermediates, ...)", "sc-all-blocks")
+                continue
+            by = _bypasses(fn)
+            res.inst(f"_simple_combine: blocks are mapped through {norm(fn)[:50]}; alternatives that skip the re-indexer: {by}", "sc-all-blocks")
+            if by:
+                res.report("core._simple_combine|block-bypasses-reindex", sc.where(c), sc.qualname,
+                           f"'{norm(c)[:80]}': some blocks are handed on without passing through reindex_intermediates ({', '.join(by)}). The blocks are "
+                           "concatenated position by position afterwards: a block that holds all the groups but in its own order (sort=False, or the code -1 "
+                           "first) is combined slot-against-wrong-slot")
+    if oks and n_maps == 0:
+        res.notes.append("UNDECIDED: _simple_combine re-indexes, but not through deepmap(<re-indexer>, blocks); all-blocks clause not checked")
     return res
 
 
@@ -820,6 +876,14 @@ def rule_reindexdtype(ctx) -> RuleResult:
                             src, tuple_pos = a.value, i
                 if src is None:
                     continue
+                # follow local aliases bound once (same = array.dtype; new_dtype = same)
+                hops = 0
+                while isinstance(src, ast.Name) and hops < 4:
+                    al = [x.value for x in walk_own(f.node) if isinstance(x, ast.Assign) and len(x.targets) == 1
+                          and isinstance(x.targets[0], ast.Name) and x.targets[0].id == src.id]
+                    if len(al) != 1:
+                        break
+                    src, hops = al[0], hops + 1
                 txt = norm(src)
                 if txt == f"{arr}.dtype":
                     res.inst(f"reindex_: {v} = {txt} (input dtype)", f"def|{txt}")
@@ -872,3 +936,106 @@ def _enclosing_test_mentions_null(node, pm) -> bool:
                 return True
         child, cur = cur, pm.get(id(cur))
     return False
+
+
+# ---------------------------------------------------------------------------------------------
+# R-SUBSUMED (C04, C05, C11): in a chain of dtype-class tests no branch is dead because an earlier test already catches its types.
+# np.timedelta64 is a subclass of np.signedinteger (numpy issue 10685): `elif issubdtype(d, np.integer) ... elif issubdtype(d, np.timedelta64)`
+# never reaches the second branch, so timedelta data silently gets the integer treatment (a finite sentinel instead of NaT).
+_NP_PARENT = {
+    "number": "generic", "flexible": "generic", "bool_": "generic", "datetime64": "generic", "object_": "generic",
+    "integer": "number", "inexact": "number",
+    "signedinteger": "integer", "unsignedinteger": "integer",
+    "timedelta64": "signedinteger", "int8": "signedinteger", "int16": "signedinteger", "int32": "signedinteger", "int64": "signedinteger",
+    "intp": "signedinteger", "int_": "signedinteger", "longlong": "signedinteger",
+    "uint8": "unsignedinteger", "uint16": "unsignedinteger", "uint32": "unsignedinteger", "uint64": "unsignedinteger", "uintp": "unsignedinteger",
+    "uint": "unsignedinteger",
+    "floating": "inexact", "complexfloating": "inexact",
+    "float16": "floating", "float32": "floating", "float64": "floating", "longdouble": "floating",
+    "complex64": "complexfloating", "complex128": "complexfloating",
+    "character": "flexible", "void": "flexible", "str_": "character", "bytes_": "character",
+}
+
+
+def _np_ancestors(t: str) -> set[str]:
+    out = {t}
+    while t in _NP_PARENT:
+        t = _NP_PARENT[t]
+        out.add(t)
+    return out
+
+
+def _dtype_class_test(e: ast.AST):
+    """(subject text, set of numpy class names) for issubdtype / issubclass / isinstance tests, possibly or-ed; None otherwise"""
+    if isinstance(e, ast.BoolOp) and isinstance(e.op, ast.Or):
+        parts = [_dtype_class_test(v) for v in e.values]
+        if all(p is not None for p in parts) and len({p[0] for p in parts}) == 1:
+            return parts[0][0], set().union(*[p[1] for p in parts])
+        return None
+    if isinstance(e, ast.Call) and norm(e.func) in ("np.issubdtype", "numpy.issubdtype", "issubclass", "isinstance") and len(e.args) == 2:
+        subj = norm(e.args[0]).replace(".type", "")
+        t = e.args[1]
+        ts = t.elts if isinstance(t, ast.Tuple) else [t]
+        names = set()
+        for x in ts:
+            nx = norm(x)
+            if not nx.startswith(("np.", "numpy.")):
+                return None
+            names.add(nx.split(".", 1)[1])
+        return subj, names
+    return None
+
+
+def rule_subsumed(ctx) -> RuleResult:
+    res = RuleResult("R-SUBSUMED", "no branch of a dtype-class test chain is dead because an earlier test subsumes it", min_instances=3)
+    n_chains = 0
+    for q, f in sorted(ctx.prog.funcs.items()):
+        if f.is_overload or isinstance(f.node, ast.Lambda):
+            continue
+        chains = []
+        # if / elif chains
+        seen_ifs = set()
+        for n in walk_own(f.node):
+            if isinstance(n, ast.If) and id(n) not in seen_ifs:
+                chain, cur = [], n
+                while isinstance(cur, ast.If):
+                    seen_ifs.add(id(cur))
+                    chain.append(cur)
+                    cur = cur.orelse[0] if len(cur.orelse) == 1 and isinstance(cur.orelse[0], ast.If) else None
+                chains.append(chain)
+        # consecutive `if ...: return/raise` statements of one block
+        for n in [f.node] + [x for x in walk_own(f.node) if isinstance(x, (ast.If, ast.For, ast.While, ast.With, ast.Try))]:
+            for fld in ("body", "orelse"):
+                blk = getattr(n, fld, None)
+                if not isinstance(blk, list):
+                    continue
+                run = []
+                for st in blk:
+                    if isinstance(st, ast.If) and not st.orelse and st.body and isinstance(st.body[-1], (ast.Return, ast.Raise)):
+                        run.append(st)
+                    else:
+                        if len(run) > 1:
+                            chains.append(run)
+                        run = []
+                if len(run) > 1:
+                    chains.append(run)
+        for chain in chains:
+            tests = [(_dtype_class_test(c.test), c) for c in chain]
+            typed = [(t, c) for t, c in tests if t is not None]
+            if len(typed) < 2:
+                continue
+            n_chains += 1
+            caught: dict[str, list] = {}
+            for (subj, names), c in typed:
+                earlier = caught.get(subj, [])
+                dead = [t for t in names if any(a in {e for e, _ in earlier} for a in _np_ancestors(t))]
+                res.inst(f"{q}: branch on {subj} in {sorted(names)}" + (f" -- subsumed by an earlier test" if len(dead) == len(names) else ""),
+                         f"{q}|{c.lineno}")
+                if names and len(dead) == len(names):
+                    by = sorted({e for e, _ in earlier if any(e in _np_ancestors(t) for t in names)})
+                    res.report(f"{q}|dead-dtype-branch|{'+'.join(sorted(names))}", f.where(c), q,
+                               f"the branch for {', '.join('np.' + t for t in sorted(names))} can never run: np.{by[0]} is tested earlier in the same chain and "
+                               f"np.{sorted(names)[0]} is a subclass of it (numpy issue 10685 for timedelta64 < signedinteger): such data gets the np.{by[0]} treatment")
+                caught.setdefault(subj, []).extend((t, c) for t in names)
+    res.inst(f"{n_chains} dtype-class test chains examined", "count")
+    return res
